@@ -15,9 +15,9 @@ def gen(tier, rnd):
     cases = []
     cid = [0]
 
-    def case(xfers, single=1, con=1, cmtu=0, smtu=0, cszx=-1, sszx=-1, gap=0, net=None):
+    def case(xfers, single=1, con=1, cmtu=0, smtu=0, cszx=-1, sszx=-1, gap=0, net=None, slow=0):
         cid[0] += 1
-        ls = ['X id=%d single=%d con=%d cmtu=%d smtu=%d cszx=%d sszx=%d gap=%d' % (cid[0], single, con, cmtu, smtu, cszx, sszx, gap)]
+        ls = ['X id=%d single=%d con=%d cmtu=%d smtu=%d cszx=%d sszx=%d gap=%d slow=%d' % (cid[0], single, con, cmtu, smtu, cszx, sszx, gap, slow)]
         for k, (l1, l2) in enumerate(xfers, 1):
             ls.append('T %d %d %d %d %d' % (k, l1, 2 * k - 1, l2, 2 * k))
         if net:
@@ -39,6 +39,13 @@ def gen(tier, rnd):
                 for single in (1, 0):
                     for con in ((1, 0) if (thorough or szx in (0, 3, 6)) else (1,)):
                         case([xf], single=single, con=con, cszx=szx)
+    # 1b. slow networks: nothing lost, every exchange prompt (delay well below ACK_TIMEOUT), but the transfer as a whole lasts longer than MAX_TRANSMIT_WAIT
+    #     (93 s) and EXCHANGE_LIFETIME (247 s): progress, not the start of the transfer, is what the expiry of transfer state has to go by
+    for (L, szx, slow) in ((4000, 0, 250), (4000, 0, 600), (9000, 1, 500), (1600, 0, 900)):
+        for xf in dirs(L):
+            for single in (1, 0):
+                case([xf], single=single, con=1, cszx=szx, slow=slow)
+        case([(L, -1)], single=1, con=0, cszx=szx, slow=slow)
     # 2. block size chosen from the session maximum; both sides' MTU
     for mtu in (64, 96, 128, 256, 576, 1152, 1400, 2048):
         for L in (0, 15, 16, 17, 100, 1000, 1024, 1025, 3000):
